@@ -362,6 +362,82 @@ func (g *c03gen) str(d int, leaf bool) string {
 	return "Str"
 }
 
+// ---- nested builtins: the collection stack
+//
+// A closure body of the form `<inner builtin> <op> <use of #>` or `<use of #> <op> <inner builtin>`, where
+// the inner builtin iterates a collection of *another* element type and the use of `#` is typed at the
+// outer element type by a construct that no other element type admits.  If the checker does not restore
+// its collection stack after the inner builtin, the outer `#` is typed as an element of the inner
+// collection.  All seven builtins occur as the inner and as the outer one; element types int, string,
+// float64, struct; up to three builtins deep.  In the mutant, one use of `#` is written for the inner
+// builtin's element type instead (ill typed by the reference rules).
+type c03Elem struct {
+	name    string
+	colls   []string
+	boolUse []string // bool-typed uses of `#` that only this element type admits
+	valUse  []string
+}
+
+var c03Elems = []c03Elem{
+	{"int", []string{"Ints", "1..3", "Ints[0:2]"}, []string{"# % 2 == 0", "Fi(#) > 0", "(# % 3) in Ints"}, []string{"# % 2", "Fi(#)"}},
+	{"string", []string{"Strs", "Strs[0:1]"}, []string{"# startsWith \"b\"", "len(#) > 0", "Fs(#) == \"a\"", "# contains \"a\""}, []string{"# + \"x\"", "len(#)", "Fs(#)"}},
+	{"float", []string{"Fls"}, []string{"Ff(#) > 0.5", "Ff(#) == Ff(#)"}, []string{"Ff(#)"}},
+	{"struct", []string{"Sts"}, []string{"#.X > 0", "#.Y == \"a\"", "#.X in Ints"}, []string{"#.X", "#.Y"}},
+}
+
+var c03Builtins = []string{"all", "none", "any", "one", "filter", "map", "count"}
+
+// nestedBody: a bool-typed closure body over elements of type c03Elems[e], with `depth` further builtins
+// nested inside.
+func (g *c03gen) nestedBody(e, depth int) string {
+	if depth <= 0 {
+		return g.pick(c03Elems[e].boolUse...)
+	}
+	e2 := (e + 1 + g.rng.Intn(len(c03Elems)-1)) % len(c03Elems)
+	inner := g.nestedBuiltin(c03Builtins[g.rng.Intn(len(c03Builtins))], e2, depth-1)
+	use := g.pick(c03Elems[e].boolUse...)
+	if g.faultClass == "outer-pointer-as-inner-element" && !g.faultDone {
+		if g.faultIn == 0 {
+			g.faultDone = true
+			use = g.pick(c03Elems[e2].boolUse...)
+		}
+		g.faultIn--
+	}
+	op := g.pick("&&", "and", "||", "or", "==", "!=")
+	if g.rng.Intn(4) == 0 {
+		return fmt.Sprintf("(%s) %s (%s)", use, op, inner)
+	}
+	return fmt.Sprintf("(%s) %s (%s)", inner, op, use)
+}
+
+// nestedBuiltin: a bool-typed expression around builtin `name` over a collection of element type e
+func (g *c03gen) nestedBuiltin(name string, e, depth int) string {
+	coll := g.pick(c03Elems[e].colls...)
+	body := g.nestedBody(e, depth)
+	switch name {
+	case "count":
+		return fmt.Sprintf("count(%s, {%s}) %s %s", coll, body, g.pick("==", ">", "<="), g.pick("0", "1", "2"))
+	case "filter":
+		return fmt.Sprintf("len(filter(%s, {%s})) %s %s", coll, body, g.pick("==", ">", "<="), g.pick("0", "1", "2"))
+	case "map":
+		if g.rng.Intn(2) == 0 {
+			return fmt.Sprintf("len(map(%s, {(%s) ? %s : %s})) > 0", coll, body, g.pick(c03Elems[e].valUse...), g.pick(c03Elems[e].valUse...))
+		}
+		return fmt.Sprintf("len(map(%s, {%s})) > 0", coll, body)
+	}
+	return fmt.Sprintf("%s(%s, {%s})", name, coll, body)
+}
+
+// nestedTop: the outer builtin itself (results of type bool, int, []T, []interface{})
+func (g *c03gen) nestedTop(depth int) string {
+	name := c03Builtins[g.rng.Intn(len(c03Builtins))]
+	e := g.rng.Intn(len(c03Elems))
+	if g.rng.Intn(2) == 0 {
+		return g.nestedBuiltin(name, e, depth)
+	}
+	return fmt.Sprintf("%s(%s, {%s})", name, g.pick(c03Elems[e].colls...), g.nestedBody(e, depth))
+}
+
 // untyped generates an arbitrary (mostly ill-typed) expression over the environment's names: it exercises
 // the error paths of the checker — which error is reported first, where, and how the tree is annotated.
 func (g *c03gen) untyped(d int) string {
@@ -579,6 +655,29 @@ func runC03(c *Ctx) {
 		}
 		cases = append(cases, cs)
 	}
+	// nested builtins with element types that differ between the levels (the collection stack)
+	nNested := n / 4
+	for i := 0; i < nNested; i++ {
+		g := &c03gen{rng: c.Rng, static: true}
+		e := envs[c.Rng.Intn(len(envs))]
+		cs := c03Case{env: e, static: true, goal: tBool}
+		depth := 1 + c.Rng.Intn(2)
+		if i%2 == 1 {
+			g.faultClass = "outer-pointer-as-inner-element"
+			g.faultIn = c.Rng.Intn(depth)
+			cs.fault = g.faultClass
+		}
+		cs.src = g.nestedTop(depth)
+		if g.faultClass != "" && !g.faultDone {
+			cs.fault = ""
+		}
+		if cs.fault == "" {
+			c.R.Count("nested:well-typed", 1)
+		} else {
+			c.R.Count("nested:mutants", 1)
+		}
+		cases = append(cases, cs)
+	}
 	// arbitrary trees (tie only: error paths, positions, classes, annotations)
 	nUntyped := n
 	for i := 0; i < nUntyped; i++ {
@@ -688,7 +787,7 @@ func runC03(c *Ctx) {
 		c03Oracle(c, cs)
 	}
 	c03IfaceArith(c)
-	for _, k := range []string{"check:accepted", "check:rejected", "oracle:static-runs", "oracle:mutants-rejected"} {
+	for _, k := range []string{"check:accepted", "check:rejected", "oracle:static-runs", "oracle:mutants-rejected", "nested:well-typed", "nested:mutants"} {
 		if c.R.Counters[k] == 0 {
 			c.R.Mismatch("generator", k, "", "counter is zero")
 		}
